@@ -275,6 +275,9 @@ FIELD_CLAUSES = [
      lambda p: None if (index(p.events, "field-") < 0 or index(p.events, "resolver") < 0) else index(p.events, "resolver") < index(p.events, "field-")),
     ("resolver-at-most-once", "the resolver is invoked at most once", lambda p: count(p.events, "resolver") <= 1),
     ("started-on-every-returning-path", "a call that returns has fired the start hook", lambda p: None if p.outcome != "return" else count(p.events, "field+") == 1),
+    ("one-error-per-failed-field", "a field whose failure was recorded is not completed afterwards (completion of the null would record a second error for a non-null "
+                                   "field), and at most one error is recorded per call",
+     lambda p: None if "add_error" not in p.events else (count(p.events, "add_error") == 1 and "complete" not in p.events[index(p.events, "add_error"):])),
 ]
 
 
@@ -796,6 +799,50 @@ def _default_value_clauses():
     ]
 
 
+def _collect_fields_clauses():
+    CONTRIB = ("keep", "merge", "mark")
+
+    def skip_facts(p):
+        return [v for t, v in p.facts if t.startswith("_skip_selection(")]
+
+    def only_unskipped(p):
+        # a selection excluded by @skip / @include contributes nothing: no field kept, nothing merged, and - what a later spread of the same fragment
+        # in this selection set depends on - the fragment is not marked as visited
+        if not any(e in CONTRIB or e.startswith("rec(") for e in p.events):
+            return None
+        f = skip_facts(p)
+        return bool(f) and not any(f)
+
+    def tested_once(p):
+        if "for[selections]{" not in p.events or p.events.count("for[selections]{") != 1:
+            return None
+        inside = [e for e in p.events if e not in ("for[selections]{", "}", "}!")]
+        return None if not inside else inside.count("skip?") == 1 and inside[0] == "skip?"
+
+    def merged_once(p):
+        rec = [e for e in p.events if e.startswith("rec(")]
+        if not rec or p.outcome != "return":
+            return None
+        return len(rec) == 1 and p.events.count("merge") == 1 and p.events.index("merge") > p.events.index(rec[0]) and "keep" not in p.events
+
+    def shared_visited(p):
+        rec = [e for e in p.events if e.startswith("rec(")]
+        return None if not rec else all(e == "rec(_seen_fragments)" for e in rec)
+
+    def field_kept_once(p):
+        if "keep" not in p.events:
+            return None
+        return p.events.count("keep") == 1 and not any(e.startswith("rec(") or e in ("merge", "mark") for e in p.events)
+
+    return [
+        ("excluded-selections-contribute-nothing", "a selection switched off by @skip / @include keeps no field, merges nothing and does not mark its fragment as visited", only_unskipped),
+        ("directives-tested-first", "every selection's @skip / @include is evaluated exactly once, before anything else is done with it", tested_once),
+        ("fragment-collected-and-merged-once", "an included fragment's selection set is collected by one recursive call whose result is merged once", merged_once),
+        ("visited-set-is-shared", "recursive calls work on the caller's set of visited fragments", shared_visited),
+        ("field-kept-once", "an included field is appended once to its response-name group, and nothing else happens for it", field_kept_once),
+    ]
+
+
 def _max_depth_clauses():
     def no_empty_max(p):
         m = [e for e in p.events if e.startswith("max(")]
@@ -1070,10 +1117,12 @@ def _store_label(m, av=None):
 
 
 TRACE_CONTRACTS = [
-    dict(id="BlockingExecutor.resolve_field", target="py_gql.execution.blocking_executor:BlockingExecutor.resolve_field", props=["C16"],
+    dict(id="BlockingExecutor.resolve_field", target="py_gql.execution.blocking_executor:BlockingExecutor.resolve_field", props=["C16", "C10", "C04"],
+         default_props=["C16"], clause_props={"one-error-per-failed-field": ["C10", "C04"]},
          config=Config(events=FIELD_EVENTS, nothrow=FIELD_NOTHROW), clauses=FIELD_CLAUSES,
          assumes=["instrumentation hooks, add_error and ResolveInfo() do not raise"]),
-    dict(id="Executor.resolve_field", target="py_gql.execution.executor:Executor.resolve_field", props=["C16"],
+    dict(id="Executor.resolve_field", target="py_gql.execution.executor:Executor.resolve_field", props=["C16", "C10", "C04"],
+         default_props=["C16"], clause_props={"one-error-per-failed-field": ["C10", "C04"]},
          config=Config(events=FIELD_EVENTS, nothrow=FIELD_NOTHROW + [r"unwrap_value$"],
                        raises=[(r"self\.complete_value$", [RuntimeError, TypeError])],
                        callbacks=[(r"runtime\.map_value$", map_value_contract)]),
@@ -1113,6 +1162,23 @@ TRACE_CONTRACTS = [
                                (r"^ast_node_from_value$", lambda call, args, kwargs: "ast_node_from_value(%s)" % ",".join(__import__("ast").unparse(a) for a in call.args))],
                        nothrow=[]),
          clauses=_default_value_clauses(), assumes=["print_ast / ast_node_from_value are the printer and the value-to-node conversion (bounded under C03 / C12)"]),
+    dict(id="ResolutionContext.add_error", target="py_gql.execution.wrappers:ResolutionContext.add_error", props=["C10", "C04"],
+         config=Config(events=[(r"self\._errors\.append$", "record")], stmt_events=[(r"^err\.\w+$", "write:err")],
+                       nothrow=[r"\.append$", r"__new__$", r"\.update$"]),
+         clauses=[("frame:the-raised-error-is-not-modified", "the error instance handed in is not written to: an instance raised at several positions or in several "
+                   "requests (a module-level constant) is reported once per position, each with its own path and location", lambda p: "write:err" not in p.events),
+                  ("records-exactly-one-error", "every call that returns has recorded exactly one error", lambda p: None if p.outcome != "return" else count(p.events, "record") == 1)],
+         assumes=[]),
+    dict(id="collect_fields", target="py_gql.utilities.collect_fields:collect_fields", props=["C04"],
+         config=Config(events=[(r"^_skip_selection$", "skip?"), (r"_seen_fragments\.add$", "mark"), (r"^_merge$", "merge"), (r"\.append$", "keep"),
+                               (r"^collect_fields$", lambda call, args, kwargs: "rec(%s)" % __import__("ast").unparse(call.args[-1]) if call.args else "rec(?)")],
+                       nothrow=[r"^_skip_selection$", r"^_merge$", r"\.append$", r"\.add$", r"^_fragment_type_applies$", r"^OrderedDict$"]),
+         clauses=_collect_fields_clauses(), assumes=["_skip_selection / _fragment_type_applies / _merge do not raise (directive arguments were validated)"]),
+    dict(id="collect_fields_untyped", target="py_gql.utilities.collect_fields:collect_fields_untyped", props=["C19"],
+         config=Config(events=[(r"^_skip_selection$", "skip?"), (r"_seen_fragments\.add$", "mark"), (r"^_merge$", "merge"), (r"\.append$", "keep"),
+                               (r"^collect_fields_untyped$", lambda call, args, kwargs: "rec(%s)" % __import__("ast").unparse(call.args[-1]) if call.args else "rec(?)")],
+                       nothrow=[r"^_skip_selection$", r"^_merge$", r"\.append$", r"\.add$", r"^OrderedDict$"]),
+         clauses=_collect_fields_clauses(), assumes=["_skip_selection / _merge do not raise"]),
     dict(id="MaxDepthValidationRule.__call__", target="py_gql.utilities.max_depth:MaxDepthValidationRule.__call__", props=["C19"],
          config=Config(events=[(r"^collect_fields_untyped$", "collect"), (r"^selected_fields$", "selected_fields"),
                                (r"^max$", lambda call, args, kwargs: "max(default)" if "default" in kwargs else "max()"),
